@@ -19,7 +19,7 @@ func init() {
 		ID:          "C03",
 		Level:       "other",
 		Run:         runC03,
-		Explanation: "Structural rules over the pipelined variants: R03.1 who-may-write architectural state (Context.Registers/Memory are stored to only by non-scoreboard Context methods and by the variants' line write-back routines; Context writers are called only from write units, branch resolution and Run); R03.2 every write-unit commit is behind the sequence filter `execution.SequenceID > limit` with limit != -1, and from the variant where register results are renamed the write-unit step of a flush cycle receives the limit; R03.3 the pipeline flush reaches the flush/clean of every bus and unit (and bumps the sequence epoch where one is used); R03.4 before the flush, Run drains execute units holding older work with the limit installed and the execute unit's pre-step drops exactly the younger ones; R03.5 branch resolution: taken -> rollback with the branch's own id, not taken -> commit; R03.6 decode stalls after an unconditional jump until the target is reported; R03.7 stores reach a cache only sequence-guarded or gated on unresolved conditional branches; R03.8 the branch/memory classification tables agree with the opcode implementations; R03.10 the flush path contains no explicit panic; R03.11 every read of the memory image by a line fetch is bounded (a wrong-path load may fetch any address); R03.12 the branch unit never misses a flush (assert -> jump/conditionalBranch sets the flush flag whenever the resolved pc differs from the fetched one); R03.13 every dispatch path of the control unit maintains the flags that hold ret and stores behind an unresolved conditional branch; R03.21 every redirect of the fetch unit starts a new sequence epoch; R03.22 the pipeline is flushed to the proposed pc itself; R03.23 the execute unit arms the branch unit's check for the instruction it runs; R03.19 an inner flush proposed during the drain before a flush replaces the pending restart pc and limit; R03.20 the write-back of a line skips the bytes below address 0 and stops only past the end of the image; R03.18 when a jump's target is resolved the branch target buffer is updated and the fetch redirected unconditionally (a buffer hit is never verified elsewhere); R03.17 the one-line-per-access data path tests the sign of an address before it selects a line with a truncating remainder (a wrong-path load can carry a negative address); R03.16 the wholesale commit at the resolution of a not-taken conditional branch is safe only if conditional branches resolve one at a time (held while an older one is unresolved) or the commit is bounded by the branch's sequence id; R03.15 a variant that writes results into the register file directly dispatches in order or holds every instruction while a conditional branch is unresolved; R03.14 the squash restores register state: Context.Rollback/RATRollback, the transactional writes and the tag-bounded rename-table lookups equal the reference model (spec/risc_state.go.txt). Does not decide that sequence ids order instructions correctly across loop iterations and epochs (a value question). R03.24 the flush of a unit written as a suspendable coroutine returns it to its start; R03.25 a drain loop that ends on a local flag clears the flag wherever it finds a component busy; R03.26 a unit's flush empties every container of in-flight instructions it owns (or the step re-creates it every cycle).",
+		Explanation: "Structural rules over the pipelined variants: R03.1 who-may-write architectural state (Context.Registers/Memory are stored to only by non-scoreboard Context methods and by the variants' line write-back routines; Context writers are called only from write units, branch resolution and Run); R03.2 every write-unit commit is behind the sequence filter `execution.SequenceID > limit` with limit != -1, and from the variant where register results are renamed the write-unit step of a flush cycle receives the limit; R03.3 the pipeline flush reaches the flush/clean of every bus and unit (and bumps the sequence epoch where one is used); R03.4 before the flush, Run drains execute units holding older work with the limit installed and the execute unit's pre-step drops exactly the younger ones; R03.5 branch resolution: taken -> rollback with the branch's own id, not taken -> commit; R03.6 decode stalls after an unconditional jump until the target is reported; R03.7 stores reach a cache only sequence-guarded or gated on unresolved conditional branches; R03.8 the branch/memory classification tables agree with the opcode implementations; R03.10 the flush path contains no explicit panic; R03.11 every read of the memory image by a line fetch is bounded (a wrong-path load may fetch any address); R03.12 the branch unit never misses a flush (assert -> jump/conditionalBranch sets the flush flag whenever the resolved pc differs from the fetched one); R03.13 every dispatch path of the control unit maintains the flags that hold ret and stores behind an unresolved conditional branch; R03.21 every redirect of the fetch unit starts a new sequence epoch; R03.22 the pipeline is flushed to the proposed pc itself; R03.23 the execute unit arms the branch unit's check for the instruction it runs; R03.19 an inner flush proposed during the drain before a flush replaces the pending restart pc and limit; R03.20 the write-back of a line skips the bytes below address 0 and stops only past the end of the image; R03.18 when a jump's target is resolved the branch target buffer is updated and the fetch redirected unconditionally (a buffer hit is never verified elsewhere); R03.17 the one-line-per-access data path tests the sign of an address before it selects a line with a truncating remainder (a wrong-path load can carry a negative address); R03.16 the wholesale commit at the resolution of a not-taken conditional branch is safe only if conditional branches resolve one at a time (held while an older one is unresolved) or the commit is bounded by the branch's sequence id; R03.15 a variant that writes results into the register file directly dispatches in order or holds every instruction while a conditional branch is unresolved; R03.14 the squash restores register state: Context.Rollback/RATRollback, the transactional writes and the tag-bounded rename-table lookups equal the reference model (spec/risc_state.go.txt). Does not decide that sequence ids order instructions correctly across loop iterations and epochs (a value question). R03.24 the flush of a unit written as a suspendable coroutine returns it to its start; R03.25 a drain loop that ends on a local flag clears the flag wherever it finds a component busy; R03.26 a unit's flush empties every container of in-flight instructions it owns (or the step re-creates it every cycle). R03.27 a flag that a unit's emptiness predicate reads and the unit raises while it works is lowered by the unit's flush.",
 		Assumptions: []string{"sequence ids increase in program order within an epoch (not decided)"},
 		Trusted:     []string{"go/types", "role resolution (evidence.anchors)", "E-TERM opcode terms for the derived classification"},
 	})
@@ -739,6 +739,72 @@ func ruleDecodeStall(r *Run, rule string) {
 					}
 				}
 				r.check(top && len(clearedBy) >= 2 && hasFlushClear, rule, key, fd.Pos(), "after decoding an unconditional jump the unit sets %s, returns early while it is set (%v), and it is cleared by the resolution notice and by flush (%v)", flag.Name(), top, sortedKeys(clearedBy))
+				// and nothing more is decoded in the SAME step: the decode loop is left after the jump was pushed
+				// (units that decode one instruction per step have no loop to leave)
+				inLoop := false
+				ast.Inspect(fd.Body, func(n ast.Node) bool {
+					var body *ast.BlockStmt
+					switch x := n.(type) {
+					case *ast.ForStmt:
+						body = x.Body
+					case *ast.RangeStmt:
+						body = x.Body
+					}
+					if body != nil {
+						ast.Inspect(body, func(k ast.Node) bool {
+							if is, ok := k.(*ast.IfStmt); ok && strings.Contains(types.ExprString(is.Cond), "IsUnconditionalBranch()") {
+								inLoop = true
+							}
+							return true
+						})
+					}
+					return true
+				})
+				if !inLoop {
+					continue
+				}
+				stops := false
+				ast.Inspect(fd.Body, func(n ast.Node) bool {
+					is, ok := n.(*ast.IfStmt)
+					if !ok || !strings.Contains(types.ExprString(is.Cond), "IsUnconditionalBranch()") {
+						return true
+					}
+					if terminates(is.Body.List) {
+						stops = true
+					}
+					// locals raised in the branch
+					raised := map[types.Object]bool{}
+					for _, st := range is.Body.List {
+						if as, ok := st.(*ast.AssignStmt); ok && len(as.Lhs) == 1 && len(as.Rhs) == 1 {
+							if id, ok := as.Lhs[0].(*ast.Ident); ok {
+								if tv := info.Types[as.Rhs[0]]; tv.Value != nil && tv.Value.String() == "true" {
+									raised[info.Uses[id]] = true
+								}
+							}
+						}
+					}
+					ast.Inspect(fd.Body, func(k ast.Node) bool {
+						i2, ok := k.(*ast.IfStmt)
+						if !ok || i2.Pos() <= is.Pos() {
+							return true
+						}
+						guard := false
+						switch c := ast.Unparen(i2.Cond).(type) {
+						case *ast.Ident:
+							guard = raised[info.Uses[c]]
+						case *ast.SelectorExpr:
+							if s := info.Selections[c]; s != nil && s.Obj() == flag {
+								guard = true
+							}
+						}
+						if guard && terminates(i2.Body.List) {
+							stops = true
+						}
+						return true
+					})
+					return true
+				})
+				r.check(stops, rule, key+":same-step", fd.Pos(), "after an unconditional jump is pushed the decode loop is left in the same step (nothing behind the jump is decoded before its target is known)")
 			}
 		}
 	}
@@ -998,6 +1064,8 @@ func runC03(r *Run) {
 	ruleJumpResolutionRedirects(r, "R03.18")
 	r.floor("R03.19", 6)
 	ruleInnerFlushOverrides(r, "R03.19")
+	r.floor("R03.27", 7)
+	ruleFlushResetsCompletionFlags(r, "R03.27")
 	r.floor("R03.26", 20)
 	ruleFlushEmptiesContainers(r, "R03.26")
 	r.floor("R03.25", 15)
